@@ -657,7 +657,11 @@ func execSmerge(t *testing.T, sc Scn) *runOut {
 	k := sc.N
 	o.leak = runBubble(t, func() {
 		var mu sync.Mutex
-		firstErr := 0
+		firstErr := 0 // the first injected error returned by an input's Next
+		// errors returned before the next quiescent point are concurrent with it: any of them may
+		// reach the CAS first, so any of them is an acceptable "first error"
+		firstErrs := map[int]bool{}
+		firstErrOpen := false
 		ins := make([]*gated, k)
 		arg := make([]stream.Stream[interface{}], k)
 		kill := make(chan struct{})
@@ -680,6 +684,10 @@ func execSmerge(t *testing.T, sc Scn) *runOut {
 			g.onErr = func(id int) { // called with mu held
 				if firstErr == 0 {
 					firstErr = id
+					firstErrOpen = true
+				}
+				if firstErrOpen {
+					firstErrs[id] = true
 				}
 			}
 			ins[i] = g
@@ -690,6 +698,7 @@ func execSmerge(t *testing.T, sc Scn) *runOut {
 		reported := 0
 		pending, pendingLive := false, false
 		closeStarted, closeReturned, closed := false, false, false
+		closeSnapshot := -1 // close count of an input that was not closed exactly once at the moment Close returned
 		terminated := make([]bool, k) // harness has released end/err for this gated input
 		delivered := make([]int, k)
 		params := func() map[string]interface{} { return map[string]interface{}{"inputs": k} }
@@ -697,6 +706,7 @@ func execSmerge(t *testing.T, sc Scn) *runOut {
 			synctest.Wait()
 			mu.Lock()
 			defer mu.Unlock()
+			firstErrOpen = false
 			var news []string
 			for ; reported < len(results); reported++ {
 				r := results[reported]
@@ -729,7 +739,7 @@ func execSmerge(t *testing.T, sc Scn) *runOut {
 						o.fail("smerge-early-end", params(), "merged stream ended before all inputs ended and all their items were delivered")
 					}
 				case "err":
-					if r.e != firstErr {
+					if !firstErrs[r.e] {
 						o.fail("smerge-first-error", params(), "merged stream reported E%d, the first input error was E%d", r.e, firstErr)
 						o.fail("c08-merge-wrong-error", params(), "merged stream reported E%d, the first input error was E%d", r.e, firstErr)
 					}
@@ -784,6 +794,10 @@ func execSmerge(t *testing.T, sc Scn) *runOut {
 			if closeStarted && !closeReturned {
 				o.fail("smerge-close-blocked", map[string]interface{}{"inputs": k, "blocked_in_next": blocked},
 					"Close of the merged stream has not returned at quiescence (%d goroutines still inside in[i].Next)", blocked)
+			}
+			if closeSnapshot >= 0 {
+				o.fail("c09-merge-input-close-count", map[string]interface{}{"inputs": k, "closes": closeSnapshot},
+					"an input had been closed %d times at the moment Close of the merged stream returned", closeSnapshot)
 			}
 			if closeReturned {
 				if blocked > 0 {
@@ -870,6 +884,11 @@ func execSmerge(t *testing.T, sc Scn) *runOut {
 				}()
 				mu.Lock()
 				closeReturned = true
+				for _, g := range ins {
+					if g.closes != 1 && closeSnapshot < 0 {
+						closeSnapshot = g.closes
+					}
+				}
 				mu.Unlock()
 			}()
 		}
